@@ -463,6 +463,23 @@ def check_accessors(ctx, repo):
                          (((0, 1),), {0: "V2", 4: "V0"})):
         fn, out = run("grade", list(grades))
         expect_pairs(f"{M}.grade#{grades}", fn, out, want, f"grade{grades}")
+    # a multivector holding EVERY blade, stored in binary and in a shuffled order (not the canonical one)
+    for label, dkeys in (("binary order", tuple(range(8))), ("shuffled", (6, 0, 3, 5, 7, 1, 4, 2))):
+        dense = mv_obj(rep_algebra(3), dkeys, [Val(f"D{k}") for k in dkeys])
+        for grades in ((1,), (2,), (0, 3)):
+            fn, out = run("grade", list(grades), mv=dense)
+            want = {k: f"D{k}" for k in range(8) if bin(k).count("1") in grades}
+            c = f"{M}.grade#dense, {label}:{grades}"
+            got = pairs_of(out[1]) if out[0] == "return" else None
+            if out[0] == "raise":
+                ctx.violation(c, f"grade{grades} of a dense multivector stored in {label} raises {out[1]}", fn)
+            elif got is None:
+                raise Unknown(c, f"grade gives {out!r}", fn)
+            elif got == want:
+                ctx.ok(c, fn)
+            else:
+                ctx.violation(c, f"grade{grades} of a multivector holding all 8 blades in {label} {dkeys} gives {got}, expected {want}: "
+                                 f"coefficients are taken by position in another order than they are stored", fn)
     # asfullmv
     full = {k: stored.get(k, 0) for k in range(8)}
     fn, out = run("asfullmv")
@@ -514,6 +531,33 @@ def check_accessors(ctx, repo):
         raise Unknown(c, f"map gives {out!r}", fn)
     else:
         ctx.violation(c, f"map(f(k, v)) gives {got}: f is not called with each value's own key", fn)
+    # a callable that is not a Python function (a class such as Fraction or complex, a builtin such as round) and merely
+    # ACCEPTS a second, optional argument: it is applied to the values, like every one-argument function
+    calls = []
+    cls_like = Obj("builtin", {"fmt": "<class with an optional second parameter>", "__signature__": ["value", "denominator"], "__name__": "Fraction"},
+                   call=lambda *a, **k: (calls.append(a), ("f", a[0]))[1])
+    fn, out = run("map", [cls_like])
+    c = f"{M}.map#class-like callable with an optional second parameter"
+    if out[0] == "return" and isinstance(out[1], Obj) and all(len(a) == 1 for a in calls) and len(calls) == len(stored):
+        got = {k: (v[0], val_repr(v[1])) for k, v in zip(out[1].attrs["_keys"], out[1].attrs["_values"])}
+        if got == {k: ("f", v) for k, v in stored.items()}:
+            ctx.ok(c, fn)
+        else:
+            ctx.violation(c, f"map(Class) gives {got}", fn)
+    elif calls and any(len(a) != 1 for a in calls):
+        ctx.violation(c, f"map(f) with a class / builtin whose second parameter is optional (Fraction, complex, round) calls it as "
+                         f"f(key, value) ({[tuple(str(x) for x in a) for a in calls[:2]]}): the key is taken for the value", fn)
+    else:
+        raise Unknown(c, f"map gives {out!r} after {len(calls)} calls", fn)
+    calls2 = []
+    pred2 = Obj("builtin", {"fmt": "<class-like predicate>", "__signature__": ["value", "base"], "__name__": "int"},
+                call=lambda *a, **k: (calls2.append(a), isinstance(a[0], Obj) and val_repr(a[0]) in {"V0", "V3"})[1])
+    fn, out = run("filter", [pred2])
+    c = f"{M}.filter#class-like callable with an optional second parameter"
+    if calls2 and any(len(a) != 1 for a in calls2):
+        ctx.violation(c, f"filter(f) with a class / builtin whose second parameter is optional calls it as f(key, value)", fn)
+    else:
+        expect_pairs(c, fn, out, {4: "V0", 7: "V3"}, "filter(class-like value predicate keeping V0, V3)")
     # filter
     fn, out = run("filter", [_lam("lambda k, v: k in (3, 7)")])
     expect_pairs(f"{M}.filter#2-arg", fn, out, {3: "V1", 7: "V3"}, "filter(lambda k, v: k in (3, 7))")
